@@ -13,12 +13,15 @@ import random
 import shutil
 import warnings
 
+import torch
+
 import pydrobert.torch.config as config
 import pydrobert.torch.data as D
 
 from mc.runner import Ctx
 from mc.explore import explore
 from mc.seams import VirtualPools
+from mc.guards import Kept
 from mc.oracles import transcripts as T
 
 PROP = "C11"
@@ -47,7 +50,20 @@ RULE = (
     "transcript of <= 2 elements (3 with a reduced time menu) over in-vocabulary / out-of-vocabulary tokens, "
     "untimed or timed from a menu of (start,end) pairs x token2id/unk settings x frame_shift_ms in "
     "{None, 10, 12.5, 0.125, 0.0625, 10/3 (, 1000/44100)} x skip_frame_times.  Distinct by construction "
-    "(products of duplicate-free generators).  Non-trivial: trn file with a group of alternates or >1 "
+    "(products of duplicate-free generators).  ALIAS / DEGENERATE SPELLINGS: read_textgrid fill token in "
+    "{None, 'sil', '' (Praat's own label of an unlabelled interval), ' '} for every tier under the default "
+    "write options (all options in the large shard); TextGrid tokens '' and 'x y'; trn utterance ids '', ' ' and "
+    "a repeated id over every file of total size <= 2; token2id given / omitted, unk as string / as id.  LARGER / "
+    "DTYPE-EXACT (one 'large' shard): sample-level frame shifts (8/16/44.1 kHz, 10 ms) of recordings long enough "
+    "that frame indices exceed 2**24, 2**31 and 2**32, times strictly inside a frame, compared within one frame "
+    "shift exactly as for the small cases; frame-valued ints / integer-valued floats and token ids beyond 2**24 "
+    "and 2**31; ctm times up to 1.2e5 s with 6-15 decimals (all 24 orderings x 6 mappings, tolerance 1e-9 "
+    "relative); TextGrid times of a day at every precision; a 2500-line trn file through the virtual pool with "
+    "the default chunk size.  GLOBAL STATE: every large token case and every 16th small one is repeated under "
+    "torch.set_default_dtype(float64) and must give the identical tensor and transcript.  GUARDS: the transcript "
+    "lists / mapping dicts / token tensor handed to every writer, reader and converter are unchanged after the "
+    "call (repr / clone comparison on every case); a fixed probe per entry point is evaluated before and after "
+    "every shard and must not change, nor may the tensor kept from the first call.  Non-trivial: trn file with a group of alternates or >1 "
     "utterance; ctm with >= 2 segments; TextGrid with >= 2 entries; token transcript with a timed entry."
 )
 ASSUMPTIONS = [
@@ -62,11 +78,19 @@ ASSUMPTIONS = [
     "durations is lossy by request and only byte identity is checked",
     "times compared with tolerance half a print step (TextGrid), one frame shift (tokens), exactly (ctm)",
     "real multi-process scheduling: the real pool is run a handful of times for conformance only",
+    "large ctm times are not dyadic: start + (end - start) may differ from end in the last bit, so that pass "
+    "compares times with relative tolerance 1e-9 (the dyadic passes stay exact)",
+    "frame indices are explored up to 2**32 + 2e4 and token ids up to 2**31 + 7 (int64 tensor, float64 seconds); "
+    "times beyond 2**53 frames are out of scope",
+    "degenerate spellings that the formats cannot express are excluded: blank-containing or empty ctm ids / "
+    "tokens, trn tokens containing blanks or braces, ids containing parentheses",
 ]
 BUDGET_S = {"quick": 240, "thorough": 2400}
 
 IDSETS = [("u1", "u2", "u3"), ("b", "a 1", " c ")]
+IDSET_DEGENERATE = ("", " ", "")  # empty id, blank id, a repeated id: "()" and "( )" are legal trn ids
 FILL = "sil"
+FILLS_ALL = (None, FILL, "", " ")  # '' is Praat's own label of an unlabelled interval
 OTHER_TIER = "words"
 
 
@@ -118,11 +142,14 @@ def _trn_eval(ctx, sc, utts, timed, files, pool=None):
     case = {"kind": "trn", "utts": utts, "timed": timed, "files": files, "pool": pool}
     ctx.case(1, 1 if (has_group or len(utts) > 1) else 0)
     buf = io.StringIO()
+    snap = repr(inp)
     try:
         D.write_trn(inp, buf)
     except Exception as e:
         ctx.violation(dict(api="write_trn", symptom="raises", type=type(e).__name__, **flags), case, _err(e))
         return
+    if repr(inp) != snap:
+        ctx.violation({"api": "write_trn", "symptom": "argument-mutated"}, case, {"before": snap, "after": repr(inp)})
     text = buf.getvalue()
     try:
         got = D.read_trn(io.StringIO(text), warn=False)
@@ -275,11 +302,11 @@ def _ctm_transcripts(seq):
     return [(u, segs[u]) for u in order]
 
 
-def _ctm_eval(ctx, sc, transcripts, mapname, files):
+def _ctm_eval(ctx, sc, transcripts, mapname, files, tol=0.0):
     utt2wc, use_wc = CTM_MAPS[mapname]
     transcripts = [(u, [tuple(x) for x in segs]) for u, segs in transcripts]
     nseg = sum(len(s) for _, s in transcripts)
-    case = {"kind": "ctm", "utts": transcripts, "map": mapname, "files": files}
+    case = {"kind": "ctm", "utts": transcripts, "map": mapname, "files": files, "tol": tol}
     eff = config.DEFT_CTM_CHANNEL if utt2wc is None else utt2wc
     wc2utt = None
     if use_wc:
@@ -289,6 +316,7 @@ def _ctm_eval(ctx, sc, transcripts, mapname, files):
     flags = {"map": mapname}
     ctx.case(1, 1 if nseg >= 2 else 0)
     buf = io.StringIO()
+    snap = repr((transcripts, utt2wc, wc2utt))
     try:
         D.write_ctm(transcripts, buf, *wargs)
     except Exception as e:
@@ -303,7 +331,10 @@ def _ctm_eval(ctx, sc, transcripts, mapname, files):
         ctx.violation(dict(api="read_ctm", symptom="raises", type=type(e).__name__, **flags), case,
                       dict(_err(e), text=text))
         return
-    sym = T.ctm_compare(got, order, groups)
+    sym = T.ctm_compare(got, order, groups, tol)
+    if repr((transcripts, utt2wc, wc2utt)) != snap:
+        ctx.violation(dict(api="ctm", symptom="argument-mutated", **flags), case,
+                      {"before": snap, "after": repr((transcripts, utt2wc, wc2utt))})
     if sym:
         ctx.violation(dict(api="ctm", symptom=sym, **flags), case,
                       {"expected_order": order, "expected": groups, "observed": got, "text": text})
@@ -386,7 +417,7 @@ def _tg_options(n, tier):
     return out
 
 
-def _tg_eval(ctx, sc, precision, entries, opt, files, jitter_seed=None):
+def _tg_eval(ctx, sc, precision, entries, opt, files, jitter_seed=None, fills=(None, FILL)):
     """entries: [(tok, ks, ke)] grid indices; opt = (start, end, tier_name, point_tier)"""
     jit = _tg_jitter(jitter_seed, precision)
     transcript = [(t, T.tg_time(ks, precision) + jit(ks), T.tg_time(ke, precision) + jit(ke)) for t, ks, ke in entries]
@@ -414,7 +445,8 @@ def _tg_eval(ctx, sc, precision, entries, opt, files, jitter_seed=None):
     if precision != config.DEFT_FLOAT_PRINT_PRECISION or len(entries) % 2:
         kw["precision"] = precision
     case = {"kind": "tg", "precision": precision, "entries": entries, "opt": list(opt), "files": files,
-            "jitter_seed": jitter_seed}
+            "jitter_seed": jitter_seed, "fills": list(fills)}
+    snap = repr(transcript)
     all_zero = all(ks == ke for _, ks, ke in entries)
     is_point = point_tier is True or (point_tier is None and all_zero)
     nt = 1 if len(entries) >= 2 else 0
@@ -466,6 +498,9 @@ def _tg_eval(ctx, sc, precision, entries, opt, files, jitter_seed=None):
     except Exception as e:
         ctx.violation(dict(api="write_textgrid", symptom="raises", entry="path", type=type(e).__name__, **flags),
                       case, _err(e))
+    if repr(transcript) != snap:
+        ctx.violation({"api": "write_textgrid", "symptom": "argument-mutated"}, case,
+                      {"before": snap, "after": repr(transcript)})
     # ---- read ----------------------------------------------------------------------------
     if point_tier is True and not all_zero:
         ctx.count("tg_lossy_by_request_bytes_only")
@@ -477,7 +512,9 @@ def _tg_eval(ctx, sc, precision, entries, opt, files, jitter_seed=None):
     tol = 0.5 * 10.0 ** -precision * (1 + 1e-6) + 1e-12
     if jitter_seed is None:
         tol = 1e-9  # on-grid times are exactly representable in the printed precision
-    for tier_id, fill in itertools.product((0, tier_name or config.DEFT_TEXTGRID_TIER_NAME), (None, FILL)):
+    for tier_id, fill in itertools.product((0, tier_name or config.DEFT_TEXTGRID_TIER_NAME), fills):
+        if fill not in (None, FILL) and tier_id != 0:
+            continue  # degenerate spellings of the fill token: once (by index) is enough
         ctx.case(1, nt)
         rcase = dict(case, tier_id=tier_id, fill=fill)
         rargs = (tier_id,) if fill is None else (tier_id, fill)
@@ -491,7 +528,7 @@ def _tg_eval(ctx, sc, precision, entries, opt, files, jitter_seed=None):
             continue
         got = [tuple(x) for x in got]
         if is_point and fill is not None:
-            sym = T.tg_compare([x for x in got if x[0] != FILL], base, tol)
+            sym = T.tg_compare([x for x in got if x[0] != fill], base, tol)
             expected = base
             ctx.count("tg_point_tier_with_fill_labelled_points_only")
         else:
@@ -505,6 +542,7 @@ def _tg_eval(ctx, sc, precision, entries, opt, files, jitter_seed=None):
         if sym:
             model = T.tg_string_sorted_model(transcript, fill, precision, is_point)
             ctx.violation(dict(api="read_textgrid", symptom=sym, fill=fill is not None,
+                               fill_spelling={None: "none", FILL: "word", "": "empty", " ": "blank"}[fill],
                                observed_is_lexicographic_time_order=(got == model), **flags), rcase,
                           {"expected": expected, "observed": got, "bounds": [st, en], "text": text})
         else:
@@ -548,7 +586,7 @@ def _tg_shard(ctx, spec, tier, seed):
             n = len(entries)
             for oi, opt in enumerate(_tg_options(n, tier)):
                 files = (i // spec["K"] + oi) % (8 if tier == "quick" else 3) == 0
-                _tg_eval(ctx, sc, p, entries, opt, files)
+                _tg_eval(ctx, sc, p, entries, opt, files, fills=FILLS_ALL if oi == 0 else (None, FILL))
             if n <= 2:
                 for opt in (("none", "none", None, None), ("below", "above", None, False),
                             ("none", "above", OTHER_TIER, None)):
@@ -592,36 +630,85 @@ def _tok_times(shift, reduced):
     return [(s, e) for s in TOK_SECONDS for e in TOK_SECONDS if s <= e]
 
 
-def _tok_eval(ctx, transcript, vocab, shift, skip):
+class _DefaultDtype:
+    """global torch state: run the body under another default floating dtype, always restored"""
+
+    def __init__(self, dtype):
+        self.dtype = dtype
+
+    def __enter__(self):
+        self.saved = torch.get_default_dtype()
+        torch.set_default_dtype(self.dtype)
+
+    def __exit__(self, *exc):
+        torch.set_default_dtype(self.saved)
+        return False
+
+
+def _vocab_by_name(name):
+    return [v for v in TOK_VOCABS + TOK_VOCABS_LARGE if v[0] == name][0]
+
+
+def _tok_eval(ctx, transcript, vocab, shift, skip, dtype="float32"):
+    """returns (tensor as list, transcript read back) or None"""
     name, token2id, unk, _, _ = vocab
     transcript = [tuple(e) if isinstance(e, (list, tuple)) else e for e in transcript]
-    case = {"kind": "tok", "transcript": transcript, "vocab": name, "frame_shift_ms": shift, "skip": skip}
+    case = {"kind": "tok", "transcript": transcript, "vocab": name, "frame_shift_ms": shift, "skip": skip,
+            "default_dtype": dtype}
     timed = any(isinstance(e, tuple) for e in transcript)
     ctx.case(1, 1 if timed else 0)
     flags = {"vocab": name, "frame_shift": shift is not None, "skip_frame_times": skip}
-    try:
-        tok = D.transcript_to_token(transcript, token2id, shift, unk, skip)
-    except Exception as e:
-        ctx.violation(dict(api="transcript_to_token", symptom="raises", type=type(e).__name__, **flags), case, _err(e))
-        return
-    want_shape = (len(transcript),) if skip else (len(transcript), 3)
-    if tuple(tok.shape) != want_shape:
-        ctx.violation(dict(api="transcript_to_token", symptom="wrong-shape", **flags), case,
-                      {"shape": list(tok.shape), "expected": list(want_shape)})
-        return
-    id2token = None if token2id is None else {v: k for k, v in token2id.items()}
-    try:
-        back = D.token_to_transcript(tok, id2token, shift)
-    except Exception as e:
-        ctx.violation(dict(api="token_to_transcript", symptom="raises", type=type(e).__name__, **flags), case, _err(e))
-        return
+    snap = repr((transcript, token2id))
+    with _DefaultDtype(torch.float64 if dtype == "float64" else torch.float32):
+        try:
+            tok = D.transcript_to_token(transcript, token2id, shift, unk, skip)
+        except Exception as e:
+            ctx.violation(dict(api="transcript_to_token", symptom="raises", type=type(e).__name__, **flags), case,
+                          _err(e))
+            return None
+        if repr((transcript, token2id)) != snap:
+            ctx.violation({"api": "transcript_to_token", "symptom": "argument-mutated"}, case,
+                          {"before": snap, "after": repr((transcript, token2id))})
+        want_shape = (len(transcript),) if skip else (len(transcript), 3)
+        if tuple(tok.shape) != want_shape or tok.dtype != torch.long:
+            ctx.violation(dict(api="transcript_to_token", symptom="wrong-shape-or-dtype", **flags), case,
+                          {"shape": list(tok.shape), "dtype": str(tok.dtype), "expected": list(want_shape)})
+            return None
+        id2token = None if token2id is None else {v: k for k, v in token2id.items()}
+        snap2 = repr(id2token)
+        kept = tok.clone()
+        try:
+            back = D.token_to_transcript(tok, id2token, shift)
+        except Exception as e:
+            ctx.violation(dict(api="token_to_transcript", symptom="raises", type=type(e).__name__, **flags), case,
+                          _err(e))
+            return None
+        if not torch.equal(tok, kept) or repr(id2token) != snap2:
+            ctx.violation({"api": "token_to_transcript", "symptom": "argument-mutated"}, case,
+                          {"before": kept, "after": tok})
     exp = T.tok_expected(transcript, token2id, unk, shift, skip)
     sym = T.tok_compare(back, exp)
     if sym:
-        ctx.violation(dict(api="token_roundtrip", symptom=sym, **flags), case,
+        big = any(isinstance(e, tuple) and shift and 1000 * e[2] / shift >= 2 ** 24 for e in transcript)
+        ctx.violation(dict(api="token_roundtrip", symptom=sym, default_dtype=dtype,
+                           frame_index_at_least_2p24=bool(big), **flags), case,
                       {"tensor": tok, "expected(token,(start,end,tol))": exp, "observed": back})
     else:
         ctx.outcome([tok.tolist(), name])
+    return tok.tolist(), back
+
+
+def _tok_both_dtypes(ctx, transcript, vocab, shift, skip):
+    """global state: the same call under the float32 and the float64 default dtype - identical results"""
+    r32 = _tok_eval(ctx, transcript, vocab, shift, skip, "float32")
+    r64 = _tok_eval(ctx, transcript, vocab, shift, skip, "float64")
+    if r32 is not None and r64 is not None and r32 != r64:
+        ctx.violation({"api": "transcript_to_token", "symptom": "result-depends-on-default-dtype",
+                       "vocab": vocab[0], "frame_shift": shift is not None}, 
+                      {"kind": "tok", "transcript": transcript, "vocab": vocab[0], "frame_shift_ms": shift,
+                       "skip": skip, "default_dtype": "both"},
+                      {"float32": r32, "float64": r64})
+    ctx.count("tok_cases_repeated_under_float64_default")
 
 
 def _tok_shard(ctx, spec, tier, seed):
@@ -638,9 +725,135 @@ def _tok_shard(ctx, spec, tier, seed):
                     if i % spec["K"] != spec["k"]:
                         continue
                     for skip in (False, True):
-                        _tok_eval(ctx, list(tr), vocab, shift, skip)
+                        if (i // spec["K"]) % 16 == 0:
+                            _tok_both_dtypes(ctx, list(tr), vocab, shift, skip)
+                        else:
+                            _tok_eval(ctx, list(tr), vocab, shift, skip)
                     if i == 5000 + spec["k"]:
                         ctx.sample({"kind": "tok", "transcript": list(tr), "vocab": vocab[0], "frame_shift_ms": shift})
+
+
+# =========================================================================================
+# larger / dtype-exact / degenerately spelled instances (one shard)
+# =========================================================================================
+P24, P31 = 2 ** 24, 2 ** 31
+TOK_VOCABS_LARGE = [
+    ("large-ids", None, None, (P24 + 1, P31 + 7), None),
+    ("large-map", {"a": 0, "b": P24 + 1, "<unk>": P31 + 7}, "<unk>", ("a", "b"), "c"),
+]
+
+
+def _large_tok(ctx):
+    """frame indices and token ids beyond 2**24 (float32 mantissa) and 2**31 (int32): sample-level frame
+    shifts of long recordings, times strictly inside a frame so that floor / round are unambiguous"""
+    for vocab in TOK_VOCABS_LARGE + [_vocab_by_name("map+unk-token"), _vocab_by_name("ids")]:
+        _, _, _, inv, oov = vocab
+        t0, t1 = inv
+        t2 = oov if oov is not None else t0
+        for rate, first in ((16000, 67200001), (44100, 105840001), (8000, 40000003), (100, P24 + 5),
+                            (16000, P31 + 12345), (44100, 2 ** 32 + 7)):
+            n = first
+            tr = [(t0, 12.25, 12.5), (t1, (n + 0.3) / rate, (n + 8000 + 0.2) / rate), t2,
+                  (t2, (n + 12002 + 0.3) / rate, (n + 13005 + 0.2) / rate),
+                  (t0, (n + 20001 + 0.3) / rate, (n + 20001 + 0.3) / rate)]
+            for skip in (False, True):
+                _tok_both_dtypes(ctx, tr, vocab, 1000 / rate, skip)
+                _tok_both_dtypes(ctx, tr[1:2], vocab, 1000 / rate, skip)
+        # times already in frames: integers and integer-valued floats beyond 2**24 / 2**31 / 2**53 is excluded
+        for frames in ([(t0, P24 + 1, P24 + 3), t1, (t2, P31 + 1, 2 ** 33 + 5)],
+                       [(t0, float(P24 + 1), float(P24 + 3)), (t1, float(P31 + 1), float(2 ** 33 + 5))],
+                       [(t1, P24 + 1, float(P31 + 3))]):
+            for skip in (False, True):
+                _tok_both_dtypes(ctx, frames, vocab, None, skip)
+
+
+CTM_LARGE = [
+    ("u1", [("a", 86399.123456, 86400.000001), ("b", 0.1, 0.30000000000000004),
+            ("a", 123456.789012, 123456.789013), ("b", 1234.5678, 98765.4321)]),
+    ("u2", [("b", 3.141592653589793, 3.141592653589793), ("a", 1e-06, 2e-06), ("a", 100000.000001, 100000.000002)]),
+]
+
+
+def _large_ctm(ctx, sc):
+    """large times with many decimals: a writer printing a fixed number of decimals loses them (the dyadic
+    menu prints exactly in two decimals).  start + (end - start) need not be `end` to the last bit: 1e-9"""
+    for perm1 in itertools.permutations(CTM_LARGE[0][1]):
+        for perm2 in (CTM_LARGE[1][1], CTM_LARGE[1][1][::-1]):
+            for order in ((0, 1), (1, 0)):
+                utts = [("u1", list(perm1)), ("u2", list(perm2))]
+                utts = [utts[o] for o in order]
+                for m, name in enumerate(CTM_MAPS):
+                    _ctm_eval(ctx, sc, utts, name, m == 0, tol=1e-9)
+
+
+def _large_tg(ctx, sc):
+    """times of hours at every precision (many digits before the point), every fill spelling; tokens
+    spelled '' (Praat's unlabelled interval) and with an inner blank"""
+    for p in (0, 3, 5):
+        u = 10 ** p
+        big = [86399 * u + u // 8, 86400 * u, 100000 * u + 1, 123456 * u + (u * 789) // 1000]
+        for n in (1, 2):
+            for b in itertools.combinations_with_replacement(big, 2 * n):
+                entries = [("ab"[i % 2], b[2 * i], b[2 * i + 1]) for i in range(n)]
+                for oi, opt in enumerate(_tg_options(3, "quick")):
+                    _tg_eval(ctx, sc, p, entries, opt, oi % 3 == 0, fills=FILLS_ALL)
+        menu = T.tg_menu(p)
+        for n in (1, 2):
+            for b in T.tg_boundaries(n, menu):
+                for toks in itertools.product(("", "x y"), repeat=n):
+                    entries = [(toks[i], b[2 * i], b[2 * i + 1]) for i in range(n)]
+                    for opt in (("none", "none", None, None), ("none", "none", OTHER_TIER, False)):
+                        _tg_eval(ctx, sc, p, entries, opt, False, fills=(None, FILL))
+
+
+def _degenerate_trn(ctx, sc):
+    """empty / blank / repeated utterance ids"""
+    for i, trs in enumerate(T.trn_files(2, 3)):
+        utts = [(IDSET_DEGENERATE[j], tr) for j, tr in enumerate(trs)]
+        _trn_eval(ctx, sc, utts, "none", i % 4 == 0)
+        if i % 16 == 0:
+            _trn_eval(ctx, sc, utts, "none", False, pool=(2, 1, "file"))
+
+
+def _large_pool(ctx, sc):
+    """a file that crosses the default chunk size (1000 lines) of the multi-worker reader"""
+    utts = [(f"utt{i}", ["a"] * (i % 3) + [([["b"], [], ["a", "b"]], -1, -1)] * (i % 2) + ["b"]) for i in range(2500)]
+    _trn_eval(ctx, sc, utts, "none", True, pool=(2, config.DEFT_CHUNK_SIZE, "file"))
+    _trn_eval(ctx, sc, utts, "none", False, pool=(3, 1000, "path"))
+    _trn_eval(ctx, sc, utts[:7], "none", False, pool=(2, 2, "file"))
+
+
+def _large_shard(ctx, spec, tier, seed):
+    sc = _Scratch("large")
+    try:
+        _large_tok(ctx)
+        _large_ctm(ctx, sc)
+        _large_tg(ctx, sc)
+        _degenerate_trn(ctx, sc)
+        _large_pool(ctx, sc)
+    finally:
+        sc.close()
+
+
+# =========================================================================================
+# results independent of earlier calls
+# =========================================================================================
+def _probe():
+    """one fixed input per entry point; evaluated before and after every shard (thousands of unrelated
+    calls in between): the results must be identical, and a tensor kept from the first call unchanged"""
+    out = []
+    b = io.StringIO()
+    D.write_trn([("u1", ["a", ([[], ["b"]], -1, -1)]), ("", [])], b)
+    out.append((b.getvalue(), T.trn_norm(D.read_trn(io.StringIO(b.getvalue()), warn=False))))
+    b = io.StringIO()
+    D.write_ctm([("u2", [("a", 2.25, 6.25), ("b", 0.0, 0.0)]), ("u1", [("a", 10.5, 10.5)])], b, _W_SAME)
+    out.append((b.getvalue(), D.read_ctm(io.StringIO(b.getvalue()), {v: k for k, v in _W_SAME.items()})))
+    b = io.StringIO()
+    D.write_textgrid([("a", 2.0, 3.0), ("b", 10.0, 11.5)], b, 0.0, 20.0, precision=5)
+    out.append((b.getvalue(), [D.read_textgrid(io.StringIO(b.getvalue()), 0, f) for f in FILLS_ALL]))
+    tok = D.transcript_to_token([("a", 0.005, 0.03), "c", ("b", 4200.75, 4200.8)], V2, 0.0625, "<unk>")
+    out.append((tok.tolist(), D.token_to_transcript(tok, {v: k for k, v in V2.items()}, 0.0625)))
+    return repr(out), tok
 
 
 # =========================================================================================
@@ -659,13 +872,28 @@ def shards(tier, seed):
     out += [{"kind": "tg", "precision": p, "k": k, "K": K} for p in (0, 3, 5) for k in range(K)]
     K = 4 if q else 8
     out += [{"kind": "tok", "k": k, "K": K} for k in range(K)]
+    out.insert(0, {"kind": "large", "k": 0, "K": 1})
     return out
 
 
 def run_shard(spec, tier, seed):
     ctx = Ctx()
-    {"trn": _trn_shard, "pool": _pool_shard, "ctm": _ctm_shard, "tg": _tg_shard, "tok": _tok_shard}[spec["kind"]](
-        ctx, spec, tier, seed)
+    before, tok0 = _probe()
+    kept = Kept(tok0)
+    {"trn": _trn_shard, "pool": _pool_shard, "ctm": _ctm_shard, "tg": _tg_shard, "tok": _tok_shard,
+     "large": _large_shard}[spec["kind"]](ctx, spec, tier, seed)
+    after, _ = _probe()
+    ctx.case(1, 1)
+    if after != before:
+        ctx.violation({"api": "any", "symptom": "result-depends-on-earlier-calls"}, {"kind": "probe", "spec": spec},
+                      {"before": before, "after": after})
+    try:
+        kept.check()
+    except AssertionError as e:
+        ctx.violation({"api": "transcript_to_token", "symptom": "kept-result-changed-by-later-calls"},
+                      {"kind": "probe", "spec": spec}, _err(e))
+    if torch.get_default_dtype() != torch.float32:
+        ctx.violation({"api": "harness", "symptom": "default-dtype-not-restored"}, {"kind": "probe", "spec": spec}, {})
     return ctx
 
 
@@ -741,13 +969,20 @@ def replay(case):
         elif kind == "trn-real-pool":
             _real_pool(ctx, "thorough")
         elif kind == "ctm":
-            _ctm_eval(ctx, sc, case["utts"], case["map"], case["files"])
+            _ctm_eval(ctx, sc, case["utts"], case["map"], case["files"], case.get("tol", 0.0))
         elif kind == "tg":
             entries = [tuple(e) for e in case["entries"]]
-            _tg_eval(ctx, sc, case["precision"], entries, tuple(case["opt"]), True, case.get("jitter_seed"))
+            _tg_eval(ctx, sc, case["precision"], entries, tuple(case["opt"]), True, case.get("jitter_seed"),
+                     tuple(case.get("fills", (None, FILL))))
         elif kind == "tok":
-            vocab = [v for v in TOK_VOCABS if v[0] == case["vocab"]][0]
-            _tok_eval(ctx, case["transcript"], vocab, case["frame_shift_ms"], case["skip"])
+            vocab = _vocab_by_name(case["vocab"])
+            if case.get("default_dtype") == "both":
+                _tok_both_dtypes(ctx, case["transcript"], vocab, case["frame_shift_ms"], case["skip"])
+            else:
+                _tok_eval(ctx, case["transcript"], vocab, case["frame_shift_ms"], case["skip"],
+                          case.get("default_dtype", "float32"))
+        elif kind == "probe":
+            ctx.merge(run_shard(case["spec"], "quick", 0))
         else:
             raise ValueError(f"unknown case kind {kind}")
     finally:
